@@ -330,6 +330,9 @@ func attempt(c Case) outcome {
 	if p.C.CtorErr != nil || p.S.CtorErr != nil {
 		return outcome{status: "ctor", msg: fmt.Sprintf("variant %s not constructible: %v %v", c.Variant, p.C.CtorErr, p.S.CtorErr)}
 	}
+	// a handshake of these variants needs a few hundred datagrams; 40000 at one virtual instant is a storm
+	// (the endpoints answer each other without the clock advancing) and ends the case as a stall
+	p.Net.MaxEvents = 40000
 	if c.Plan != nil {
 		installPlan(p.Net, c.Plan)
 	} else {
